@@ -92,6 +92,10 @@ def main(prop, tier, only=None):
     lemmas = []
     discharged = 0
     os.makedirs(os.path.join(ROOT, 'replays'), exist_ok=True)
+    if not only:
+        for fn in os.listdir(os.path.join(ROOT, 'replays')):
+            if fn.startswith(prop + '-'):
+                os.remove(os.path.join(ROOT, 'replays', fn))
     for o in obs:
         r = results[o.name]
         entry = {'name': o.name, 'bounds': o.bounds, 'input_kinds': o.kinds}
